@@ -26,6 +26,9 @@ def run(ctx):
     floor(ctx, 'writers of contents', n, 4)
     observers(ctx)
     cached_results_intact(ctx, 'C10.R2')
+    # contents are keyed by Substance and the observers are memoised by the container: key laws of both classes
+    from .identity import identity_discipline
+    identity_discipline(ctx, 'C10.R2')
     return {'explanation': 'R1 (pairing): for every function and object whose contents are written, every normal exit '
                            'carries a definition of that object\'s volume that is either a full recompute - a sum over '
                            'the items of the same object\'s contents, read at the version of the contents that holds '
